@@ -1,0 +1,109 @@
+//! Simulation build only (`--cfg excsn_fibre_verif`): builds the logging pipeline without
+//! touching process-wide state. It mirrors the appender loop of `init_from_file` - same
+//! channels, filters, formatters, writer threads, processor and shutdown guard - but byte
+//! appenders write to sinks supplied by the caller and nothing is installed globally; the
+//! tracing subscriber and the `log` bridge are handed back instead.
+
+use super::*;
+
+pub struct Pipeline {
+  pub init: InitResult,
+  /// `registry().with(DispatchLayer)`, not installed anywhere
+  pub dispatch: tracing::Dispatch,
+  /// the `log` bridge, not installed anywhere
+  pub log: Box<dyn log::Log>,
+  pub max_level: LevelFilter,
+}
+
+/// `sink(appender_name)` supplies the writer of a console / file / rolling-file appender.
+pub fn build(
+  yaml: &str,
+  sink: &dyn Fn(&str) -> Box<dyn Write + Send>,
+) -> Result<Pipeline> {
+  let raw_config: ConfigRaw =
+    serde_yaml::from_str(yaml).map_err(|e| Error::ConfigParse(e.to_string()))?;
+  let internal_config: ConfigInternal = process_raw_config(raw_config)?;
+
+  let mut appender_task_handles = Vec::<AppenderTaskHandle>::new();
+  let mut appender_task_names = Vec::<String>::new();
+  let mut actors = Vec::<AppenderActor>::new();
+  let mut custom_streams = HashMap::new();
+  let shutdown_signal = Arc::new(AtomicBool::new(false));
+
+  let (error_tx_channel, error_rx_channel) = if internal_config.error_reporting_enabled {
+    let (tx, rx) = mpsc::bounded::<InternalErrorReport>(256);
+    (Some(tx), Some(rx))
+  } else {
+    (None, None)
+  };
+
+  // (sorted: the order of a std HashMap differs from process to process)
+  let mut names: Vec<&String> = internal_config.appenders.keys().collect();
+  names.sort();
+  for appender_name in names {
+    let appender_config = &internal_config.appenders[appender_name];
+    let formatter = encoders::new_event_formatter(&appender_config.encoder);
+    let filter = build_filter_for_appender(appender_name, &internal_config.loggers);
+
+    let action = match &appender_config.kind {
+      AppenderKindInternal::DebugReport(_) => continue,
+      AppenderKindInternal::Custom(_) => {
+        let (tx, rx) = mpsc::bounded::<LogEvent>(appender_config.channel_capacity);
+        custom_streams.insert(appender_name.clone(), rx);
+        ActorAction::SendEvent(tx)
+      }
+      _ => {
+        let (tx, rx) = mpsc::bounded::<Vec<u8>>(appender_config.channel_capacity);
+        let writer = sink(appender_name);
+        let handle = thread::spawn({
+          let appender_name = appender_name.clone();
+          let shutdown = Arc::clone(&shutdown_signal);
+          let error_tx = error_tx_channel.clone();
+          move || {
+            run_byte_appender_writer(
+              rx,
+              writer,
+              &appender_name,
+              &shutdown,
+              &error_tx,
+              MAX_FLUSH_INTERVAL,
+            )
+          }
+        });
+        appender_task_handles.push(handle);
+        appender_task_names.push(appender_name.clone());
+        ActorAction::SendBytes(tx)
+      }
+    };
+
+    actors.push(AppenderActor {
+      name: appender_name.clone(),
+      filter,
+      formatter,
+      action,
+      overflow: appender_config.overflow,
+      drops: DropCounter::default(),
+    });
+  }
+
+  let processor = Arc::new(EventProcessor::new(actors, error_tx_channel));
+  let max_level = processor.max_level();
+  let dispatch_layer = DispatchLayer::new(Arc::clone(&processor));
+  let subscriber = tracing_subscriber::registry().with(dispatch_layer);
+  let dispatch = tracing::Dispatch::new(subscriber);
+  let log_handler = LogHandler::new(Arc::clone(&processor));
+
+  Ok(Pipeline {
+    init: InitResult {
+      appender_task_handles,
+      appender_task_names,
+      shutdown_signal,
+      processor: Some(processor),
+      internal_error_rx: error_rx_channel,
+      custom_streams,
+    },
+    dispatch,
+    log: Box::new(log_handler),
+    max_level,
+  })
+}
